@@ -10,8 +10,9 @@ from harness.core import cfg_text, Machinery, run_tlc
 from harness.drivers import packet as P
 
 BASE = {"SeqMod": 4, "MaxSwitch": 2, "MaxTamper": 0, "MaxChunk": 5, "Stricts": "@{TRUE, FALSE}",
-        "Zlibs": "@{TRUE, FALSE}", "CheckMac": True, "MacHasSeq": True, "FreshZOut": True, "FreshZIn": True}
-INV = ["TypeOK", "PrefixOnly", "NoAlien", "AllDelivered", "NeverFailsHonest", "SyncHonest"]
+        "Zlibs": "@{TRUE, FALSE}", "Mutations": set()}
+INV = ["TypeOK", "PrefixOnly", "NoAlien", "AllDelivered", "NeverFailsHonest", "SyncHonest", "Caught"]
+MUTANTS = {"zin", "zout"}        # stale inflater / deflater after a key switch
 LEN_CLASSES = {"one", "bm1", "b", "bp1", "mid", "big"}
 
 
@@ -64,7 +65,14 @@ def generate_behaviours(c, n, nmsgs, depth):
 def replay(c, beh, suite, rnd):
     """spec -> code: run one TLC behaviour on a real sender/receiver pair; True if it agreed with the spec"""
     info = P.suite_info(suite)
-    L = P.Link(suite, rnd, strict=beh["strict"])
+    try:
+        L = P.Link(suite, rnd, strict=beh["strict"])
+    except Machinery:
+        raise
+    except Exception as e:
+        c.violation(vkey("P_fails_honest", suite), "the stream cannot even be started: %s: %s while the receiver reads the sender's first "
+                    "NEWKEYS (%s, strict=%s)" % (type(e).__name__, e, "/".join(suite), beh["strict"]), {"suite": suite})
+        return False
     L.wire.mode = "sched"
     led = P.Ledger()
     cells, arrived_cells, arrived_bytes = [], 0, len(L.wire.data)
@@ -146,7 +154,14 @@ def random_length(rnd, bsize):
 def record_stream(c, suite, rnd, nmsgs, nswitch, strict):
     """code -> spec: one seeded stream; returns the event list"""
     info = P.suite_info(suite)
-    L = P.Link(suite, rnd, strict=strict)
+    try:
+        L = P.Link(suite, rnd, strict=strict)
+    except Machinery:
+        raise
+    except Exception as e:
+        c.violation(vkey("P_fails_honest", suite), "the stream cannot even be started: %s: %s while the receiver reads the sender's first "
+                    "NEWKEYS (%s, strict=%s)" % (type(e).__name__, e, "/".join(suite), strict), {"suite": suite})
+        return None
     L.wire.mode = "rand"
     led = P.Ledger()
     ev = []
@@ -156,6 +171,9 @@ def record_stream(c, suite, rnd, nmsgs, nswitch, strict):
         return s - base if s >= 0 else -1
 
     switch_at = set(rnd.sample(range(nmsgs + 1), min(nswitch, nmsgs + 1)))
+    same_comp = [x for x in P.suites() if x[2] == suite[2]]
+    algos = ["/".join(suite)]
+    zl = info["zlib"]
     pending = 0
     maxlen = 0
     dead = False        # read_message raised: a transport would be gone; nothing more is read
@@ -184,7 +202,12 @@ def record_stream(c, suite, rnd, nmsgs, nswitch, strict):
             break
         if k in switch_at:
             ev.append({"a": "Switch", "i": 0, "r": "", "got": 0, "seq": rel(L.tx.seq)})
-            L.tx.switch(P.fresh_secret(rnd))
+            # a key exchange may agree on other algorithms (compression stays as it is)
+            new = rnd.choice(same_comp) if rnd.random() < 0.4 else None
+            L.tx.switch(P.fresh_secret(rnd), suite=new)
+            if new is not None:
+                algos.append("/".join(new))
+                info = P.suite_info(new)
             pending += 1
         if k == nmsgs:
             break
@@ -201,23 +224,23 @@ def record_stream(c, suite, rnd, nmsgs, nswitch, strict):
     if L.wire.readable() and not dead:
         ev.append({"a": "Fail", "i": 0, "r": "LeftoverBytes", "got": 0, "seq": -1})
     ev.append({"a": "End", "i": 0, "r": "", "got": 0, "seq": -1})
-    return {"strict": strict, "zlib": info["zlib"], "ev": ev,
-            "meta": {"suite": "/".join(suite), "messages": nmsgs, "switches": len(switch_at), "max_len": maxlen,
+    return {"strict": strict, "zlib": zl, "ev": ev,
+            "meta": {"suite": "/".join(suite), "algorithms": algos, "messages": nmsgs, "switches": len(switch_at), "max_len": maxlen,
                      "recv_calls": L.wire.recvs, "socket_timeouts": L.wire.timeouts}}
 
 
 def run(c):
     rnd = random.Random(c.seed)
-    # ---- M: exhaustive, honest network
+    # ---- M: exhaustive, honest network.  The same exploration also starts behaviours with a seeded defect (a
+    # receiver / sender that keeps its old inflater / deflater across a key switch): the properties are stated
+    # for the code as it is, and each defect must be noticed by one of them (they are not vacuous)
     nm = 3 if c.quick else 5
-    c.mc_holds("PacketLayer", cfg_text(constants=dict(BASE, NMsgs=nm), invariants=INV, properties=["StopsAtFirstBad"]),
-               name="honest")
-    # the invariants are not vacuous: a receiver (sender) that keeps its old inflater (deflater) across a key
-    # switch loses synchronisation
-    c.mc("PacketLayer", cfg_text(constants=dict(BASE, NMsgs=2, FreshZIn=False), invariants=INV), expect="SyncHonest",
-         name="mutant: stale inflater")
-    c.mc("PacketLayer", cfg_text(constants=dict(BASE, NMsgs=2, FreshZOut=False), invariants=["NoAlien"]), expect="NoAlien",
-         name="mutant: stale deflater")
+    c.mc_holds("PacketLayer", cfg_text(constants=dict(BASE, NMsgs=nm), invariants=INV, properties=["StopsAtFirstBad"]), name="honest network")
+    r = c.mc_holds("PacketLayer", cfg_text(constants=dict(BASE, NMsgs=2, MaxChunk=4, Mutations=MUTANTS), invariants=INV),
+                   name="seeded defects %s" % sorted(MUTANTS), workers=1)
+    caught = {x[1] for x in r.printed("CAUGHT")}
+    if caught != MUTANTS:
+        raise Machinery("seeded defects not all noticed by the model's properties: %s of %s" % (sorted(caught), sorted(MUTANTS)))
 
     # ---- RP: spec -> code on every suite
     per_suite = 3 if c.quick else 40
@@ -246,7 +269,9 @@ def run(c):
         suite = suites[order[k % len(order)]]
         big = rnd.random() < (0.15 if c.quick else 0.3)
         nmsgs = rnd.randint(60, 200) if big else rnd.randint(1, 40)
-        batch.append(record_stream(c, suite, rnd, nmsgs, rnd.randint(0, 3), rnd.random() < 0.5))
+        t = record_stream(c, suite, rnd, nmsgs, rnd.randint(0, 3), rnd.random() < 0.5)
+        if t is not None:
+            batch.append(t)
     tv_consts = dict(BASE, NMsgs=100000, SeqMod=1073741824, MaxSwitch=1000, MaxChunk=1000, Stricts="@{TRUE, FALSE}", Zlibs="@{TRUE, FALSE}")
     done = 0
     for lo in range(0, len(batch), 250):
